@@ -145,12 +145,12 @@ Print Assumptions C08_at_most_one_provider_call.
 (* The monitor that judges the implementation's observations accepts the model's prediction for
    every request whose generator bookkeeping is consistent: the boolean specification used on
    observations is implied by the theorems above. *)
-Theorem C08_monitor_accepts_model : forall cfg pre r tab ref grp valid ids secrets kind csess leak,
-  let e := mk_env tab ref grp valid in
+Theorem C08_monitor_accepts_model : forall now cfg pre r tab ref grp valid ids secrets kind csess leak,
+  let e := mk_env now tab ref grp valid in
   let m := serve cfg e pre r in
   cfg_valid cfg = true ->
   sane cfg r e ids secrets kind csess = true ->
   (leak = true -> has_field (rs_body m) = true) ->
-  holds_req cfg r ids secrets kind csess (rs_status m) (rs_calls m) (rs_body m) leak false = true.
+  holds_req now cfg r ids secrets kind csess (rs_status m) (rs_calls m) (rs_body m) leak false = true.
 Proof. exact monitor_accepts_model. Qed.
 Print Assumptions C08_monitor_accepts_model.
